@@ -661,6 +661,43 @@ def r5_options(run):
     check_parse_qs_options(run, run.project)
 
 
+def r9_asgi_query_codec(run):
+    """ASGI hands the query string over as bytes; names and values are to be
+    read as UTF-8 (the property's reference reading, and what the WSGI side
+    yields for the same request).  Decided: the bytes->str step applied to
+    scope['query_string'] in asgi.Request.__init__ uses UTF-8 (the default
+    codec), whatever its error policy."""
+    p = run.project
+    f = p.func('falcon.asgi.request.Request.__init__')
+    run.use(f)
+    calls = []
+    for c in walk_no_nested(f.node):
+        if isinstance(c, ast.Call) and isinstance(c.func, ast.Attribute) and c.func.attr == 'decode':
+            v = c.func.value
+            if isinstance(v, ast.Subscript) and isinstance(v.slice, ast.Constant) and v.slice.value == 'query_string':
+                calls.append(c)
+    if not calls:
+        # bound to a local first?
+        for a in walk_no_nested(f.node):
+            if isinstance(a, ast.Assign) and isinstance(a.value, ast.Subscript) and isinstance(a.value.slice, ast.Constant) \
+                    and a.value.slice.value == 'query_string' and len(a.targets) == 1 and isinstance(a.targets[0], ast.Name):
+                nm = a.targets[0].id
+                calls += [c for c in walk_no_nested(f.node) if isinstance(c, ast.Call) and isinstance(c.func, ast.Attribute)
+                          and c.func.attr == 'decode' and isinstance(c.func.value, ast.Name) and c.func.value.id == nm]
+    if not calls:
+        raise AnchorError('asgi.Request.__init__: decode of scope[\'query_string\'] not found')
+    for c in calls:
+        codec = None
+        if c.args:
+            codec = c.args[0].value if isinstance(c.args[0], ast.Constant) else '?'
+        for k in c.keywords:
+            if k.arg == 'encoding':
+                codec = k.value.value if isinstance(k.value, ast.Constant) else '?'
+        ok = codec is None or (isinstance(codec, str) and codec.lower().replace('_', '-') in ('utf-8', 'utf8'))
+        run.check(ok, 'the raw ASGI query string is decoded as UTF-8', f, c,
+                  runtime_witness="GET /?q=caf\\xc3\\xa9 : ASGI req.params == {'q': 'cafÃ©'} while WSGI gives 'café'")
+
+
 def check(run):
     run.assume('the pure-Python parse_query_string/decode are decided; the Cython twin (falcon/cyutil/uri.pyx) replaces them when importable and is not analysed')
     run.assume('E5 assumptions: str/bytes methods and in-range slices are total; UTF-8 encoding of text without lone surrogates is total; '
@@ -675,5 +712,9 @@ def check(run):
     # three decoder paths (shared with C10)
     from . import c10 as _c10
 
+    from . import c19 as _c19
+
+    run.rule('R8', _c19.r5_memo_returns_mutable, 'the parsed mapping is a fresh object per call (no memoised function hands out a mutable container; shared with C19 R5)', floor=5)
+    run.rule('R9', r9_asgi_query_codec, 'the ASGI constructor decodes the raw query string as UTF-8 before parsing', floor=1)
     run.rule('R6', _c10._safe(_c10.r2_escape_shape), '_HEX_TO_BYTE covers every hex pair of both cases (shared with C10 R2)', floor=10)
     run.rule('R7', _c10._safe(_c10.r4_decoder_paths), 'decoder paths share one skeleton; plus handling (shared with C10 R4)', floor=20)
